@@ -49,19 +49,26 @@ static const char *const r_level_name[7] = {"NONE", "FATAL", "ERROR", "WARN", "I
 #define NOALLOC_CAP_SHIPPED 8192 /* only sizes the harness's own buffers; the library's cut point is measured, see noalloc_cap() */
 
 #define SUBJ40 "subject-name-that-is-exactly-40-chars-xx"
+/* subject names longer than anything the formatter's own slack could hide (added after a seeded change that left the name out
+ * of the default formatter's size computation: about 88 bytes of head-room masked it for every ordinary subject) */
+#define SUBJ10X "0123456789"
+#define SUBJ120 SUBJ10X SUBJ10X SUBJ10X SUBJ10X SUBJ10X SUBJ10X SUBJ10X SUBJ10X SUBJ10X SUBJ10X SUBJ10X SUBJ10X
+#define SUBJ300 SUBJ120 SUBJ120 SUBJ10X SUBJ10X SUBJ10X SUBJ10X SUBJ10X SUBJ10X
 /* log subjects registered by the harness through the public registration call (package slot 9) */
 #define HSUBJ_BASE AWS_LOG_SUBJECT_BEGIN_RANGE(9)
 static struct aws_log_subject_info h_subject_infos[] = {
     DEFINE_LOG_SUBJECT_INFO(HSUBJ_BASE + 0, "s3", "short subject"),
     DEFINE_LOG_SUBJECT_INFO(HSUBJ_BASE + 1, SUBJ40, "40-character subject"),
     DEFINE_LOG_SUBJECT_INFO(HSUBJ_BASE + 2, NULL, "subject without a name: the line has no subject field"),
+    DEFINE_LOG_SUBJECT_INFO(HSUBJ_BASE + 3, SUBJ120, "120-character subject"),
+    DEFINE_LOG_SUBJECT_INFO(HSUBJ_BASE + 4, SUBJ300, "300-character subject"),
 };
-static struct aws_log_subject_info_list h_subject_list = {.subject_list = h_subject_infos, .count = 3};
+static struct aws_log_subject_info_list h_subject_list = {.subject_list = h_subject_infos, .count = 5};
 /* subject selector -> (id, expected name in the line; NULL = no subject field) */
-#define NSUBJ 5
+#define NSUBJ 7
 static const aws_log_subject_t subj_id[NSUBJ] = {HSUBJ_BASE + 2, HSUBJ_BASE + 0, HSUBJ_BASE + 1, HSUBJ_BASE + 7,
-                                                 AWS_LS_COMMON_GENERAL};
-static const char *const subj_name[NSUBJ] = {NULL, "s3", SUBJ40, "Unknown", "aws-c-common"};
+                                                 AWS_LS_COMMON_GENERAL, HSUBJ_BASE + 3, HSUBJ_BASE + 4};
+static const char *const subj_name[NSUBJ] = {NULL, "s3", SUBJ40, "Unknown", "aws-c-common", SUBJ120, SUBJ300};
 
 /* date formats: index -> library enum, template ('#' digit, '^' upper, '_' lower, anything else literal) */
 #define NDF 3
